@@ -188,7 +188,10 @@ Section Inner.
     exists x' y kp, sx s' = Some x' /\ evald s' y /\ pen_after s' = e_pen E y /\
       kn_inact E (va s0) (knobs s0) kp /\
       write_knobs E (c_check cf) (va s0) lims (x_to_knobs E cf x') kp = (knobs s', false) /\
-      (wfc -> wfs s0 -> length x' = n /\ length (mfl s') = n).
+      (wfc -> wfs s0 -> length x' = n /\ length (mfl s') = n) /\
+      (* the new solver x is the old one, or the old one minus a step that went through the limit test *)
+      (exists x0, sx s0 = Some x0 /\
+         (x' = x0 \/ exists this t h, lim_loop E x0 this (x_limits E cf) = (t, h) /\ x' = map2 (e_sub E) x0 t)).
 
   Lemma evald_frame s s' out :
     evald s out -> knobs s' = knobs s -> ta s' = ta s -> lres s' = lres s -> ltw s' = ltw s -> lpwt s' = lpwt s ->
@@ -219,7 +222,8 @@ Section Inner.
         + destruct I1 as (_ & _ & _ & Hx & _). congruence.
         + apply kn_inact_refl.
         + destruct H0 as (_ & _ & Hw). apply (Hw _ Hsx).
-        + destruct I1 as (_ & _ & _ & _ & Hm & _). destruct H0 as (_ & _ & Hw). rewrite Hm. apply (Hw _ Hsx). }
+        + destruct I1 as (_ & _ & _ & _ & Hm & _). destruct H0 as (_ & _ & Hw). rewrite Hm. apply (Hw _ Hsx).
+        + exists x. split; auto. }
     destruct (e_ltb E penalty (e_tolj E)); [cbn; exact Hearly|].
     cbn [lpwt set_pen]. destruct (lpwt s1) eqn:Hl1; [cbn; exact Hearly|]. clear Hearly.
     set (s1p := set_pen s1 penalty).
@@ -269,6 +273,7 @@ Section Inner.
         exists (map2 (e_sub E) x this'), y', kp. stsimpl.
         split; [reflexivity|]. split; [eapply evald_frame; eauto|]. split; [exact D2|]. split; [exact D3|].
         split; [exact D4|].
+        split; [|exists x; split; [exact Hsx|right; destruct K4 as (this & _ & T2); exists this, this', hit; auto]].
         intros Hc Hs. destruct K4 as (this & T1 & T2). apply lim_loop_length in T2. destruct T2 as [T2 T3].
         destruct Hs as (W1 & W2 & W3). destruct (W3 _ Hsx) as [W4 W5].
         assert (Hxs : length xstep = n).
